@@ -14,6 +14,8 @@ Line protocol of the `header` engine (leading token `header` stripped by `Drive.
   oneshothdr <q> <lgwin> <inhex> <outhex>
         the one-shot call (`encoder_compress`: large_window iff lgwin > 24, size hint = input length),
         non-empty input; same answer format as `stream`
+  lgblock <q> <lgwin> <lgblock> <lw>   → `<quality> <lgwin> <lgblock> <rb bits>` after `ensure_initialized`
+        (`SanitizeParams`, `ComputeLgBlock`, `ComputeRbBits`)
   b128 <v>                      → hex of `encode_base_128(v)` (significant bytes)
   bound <start> <count>         → FNV digest (hex) of `BrotliEncoderMaxCompressedSize(start .. start+count)`
   boundv <n>                    → the value (release-build arithmetic) and `!` if the last `+` overflows
@@ -80,6 +82,11 @@ def handle (args : List String) : String :=
         let outBits := bytesToBits (hexToBytes outhex)
         let spliced := st.bits ++ outBits.drop st.bits.length
         s!"prefix {bytesToHex (toBytes spliced)} {tailTok} magic={m}"
+  | ["lgblock", q, lgwin, lgb, lw] =>
+    let p : Params := { quality := intArg q, lgwin := intArg lgwin, lgblock := intArg lgb, largeWindow := flag lw,
+                        catable := false, appendable := false, useDictionary := true, magicNumber := false, sizeHint := 0 }
+    let i := ensureInitialized true p
+    s!"{i.params.quality} {i.params.lgwin} {i.params.lgblock} {computeRbBits i.params}"
   | ["b128", v] => bytesToHex (encodeBase128 (natArg v))
   | ["bound", start, count] =>
     let s := natArg start
